@@ -967,7 +967,7 @@ class BayesianNetwork(DAG):
         model_copy.add_edges_from(self.edges())
         if self.cpds:
             model_copy.add_cpds(*[cpd.copy() for cpd in self.cpds])
-        model_copy.latents = self.latents
+        model_copy.latents = self.latents.copy()
         return model_copy
 
     def get_markov_blanket(self, node):
